@@ -15,7 +15,7 @@ def action_cmd(name, sleep_s, exit_code=0):
 
 
 def gen_play(rng, fail_at=None, tolerated=False, nacts=None, repeat=None, long_actions=True, spotlight=None, cleanup=None,
-             tolerated_before=False, fail_code=None):
+             tolerated_before=False, fail_code=None, edit_first=False):
     """returns dict(text, actions{name:(sleep, exit)}, tempo_ms, story)"""
     actors = ["a", "b", "c"][:rng.range(1, 3)]
     tempo = rng.pick([40, 60, 80, 120])
@@ -93,6 +93,12 @@ def gen_play(rng, fail_at=None, tolerated=False, nacts=None, repeat=None, long_a
             out.append("  repeat %d times" % repeat["count"])
         if repeat.get("time"):
             out.append("  repeat time %s" % repeat["time"])
+        if edit_first and repeat["from"] in acts[0] and any(repeat["from"] in a for a in acts[1:]):
+            # an edit AFTER the repeat clause that takes the repeated scene out of the first act (same number of acts):
+            # the repetition must then start at the next act that matches
+            other = [c for c in chars if c != repeat["from"]]
+            new0 = acts[0].replace(repeat["from"], other[0] if other else ".")
+            out.append("  edit s/^%s/%s/" % (re.sub(r"([+.])", r"\\\1", acts[0]), new0))
     out.append("end")
     return {"text": "\n".join(out) + "\n", "actions": actions, "tempo_ms": tempo, "acts": acts, "actors": actors,
             "failing": [n for n, (d, e) in actions.items() if e != 0], "tolerated": tolerated,
